@@ -7,7 +7,7 @@
    modelled here is the RESULT of that getitem for one integer or one 1-d integer list on one
    axis (selected entries, renumbered, in canonical order), not the getitem algorithm. *)
 From Coq Require Import ZArith List Bool.
-From Verif Require Import Py PyExt Shape COO NpJoin G_join S_join Join.
+From Verif Require Import Py PyExt Shape COO NpIndex CooIndex NpJoin G_join S_join Join.
 Import ListNotations.
 Open Scope Z_scope.
 
@@ -87,6 +87,23 @@ Section Extract.
     coo_ctor V veqb vadd (fl_sorted fl 0) (fl_has_duplicates fl 0) (fl_prune fl 0)
              (fill_of V vzero (fl_fill fl) (c_fill x)) (c_shape x ++ [d])
              (map (fun c => c ++ [py_nth c axis]) (c_coords x)) (c_data x).
+
+  (* ---------------------------------------------------------------- take, on the real getitem path
+       axis = normalize_axis(axis, x.ndim); full_index = (slice(None),) * axis + (indices, ...); x[full_index]
+     with COO.__getitem__ as transcribed in Model/CooIndex.v (property C02); kf is that model's choice of
+     mask strategy (irrelevant for the result: C02 mask_strategy_irrelevant) *)
+  Definition take_index (k : nat) (e : ientry) : index := repeat full_slice k ++ [e; IEllipsis].
+
+  Definition coo_take_getitem (kf : nat -> nat) (x : coo V) (e : ientry) (axis : Z) : res (gres V) :=
+    ax <- norm_axis (fun n => Ok n) axis (ndim_of V x) ;;
+    getitem kf x (take_index (Z.to_nat ax) e).
+
+  (* `if axis is None: x = x.flatten(); return x[indices]` *)
+  Definition coo_take_getitem_opt (kf : nat -> nat) (x : coo V) (e : ientry) (axis : option Z) : res (gres V) :=
+    match axis with
+    | Some a => coo_take_getitem kf x e a
+    | None => getitem kf (coo_flatten V x) [e]
+    end.
 
   (* ---------------------------------------------------------------- take (result of getitem)
        axis = normalize_axis(axis, x.ndim); x[(slice(None),) * axis + (indices, ...)] *)
